@@ -359,10 +359,9 @@ class Gen:
                 den = 10
                 rem = 10
                 heads = []
-                for n in ad_preds:
-                    if rem <= 0:
-                        break
-                    v = rng.randint(1, max(1, min(6, rem)))
+                for ni, n in enumerate(ad_preds):
+                    left = len(ad_preds) - ni - 1
+                    v = rng.randint(1, max(1, min(6, rem - left)))
                     rem -= v
                     heads.append({"p": [v, den], "atom": {"f": n, "a": copy.deepcopy(hargs)}})
                 hv = [h["atom"] for h in heads]
